@@ -7,7 +7,7 @@ sealed, or garbage) — the abstract laws hold for it (Proofs/C20 `toy_laws`).
 
 ring     `~`  (no payload codec)  |  `<default>/<entries>`
            default = `~` | `<o>+<r>`            (originator box key token / responder box key token, `-` = no box)
-           entries = `-` | `;`-separated `<prefix>=<o>+<r>`
+           entries = `-` | `;`-separated `<prefix>=<o>+<r>` (set_key) or `<prefix>=~` (set_key(prefix, None))
 tamper   `none` | `garble` (payload replaced by something never sealed) | `swap:<uri>` (payload delivered under this
            envelope URI instead)
 
@@ -41,10 +41,11 @@ def parseRing (s : String) : Option (Codec String) :=
     | [d, es] => do
         let dk ← (if d = "~" then some none else (parseKey d).map some)
         let entries ← (if es = "-" then some [] else (es.splitOn ";").mapM (fun e => match e.splitOn "=" with
-          | [p, k] => do let k ← parseKey k; pure (p.toList, k)
+          | [p, k] => if k = "~" then some (p.toList, (none : Option (Key String)))
+                      else do let k ← parseKey k; pure (p.toList, some k)
           | _ => none))
-        -- entries are installed with `set_key`, in order
-        let ring : KeyRing String := entries.foldl (fun r e => r.setKey e.1 (some e.2)) { keys := [], default := dk }
+        -- entries are installed with `set_key`, in order (`<prefix>=~` deletes)
+        let ring : KeyRing String := entries.foldl (fun r e => r.setKey e.1 e.2) { keys := [], default := dk }
         pure (some ring)
     | _ => none
 
@@ -119,17 +120,31 @@ def flow (dir : String) (rA rB : Codec String) (u : Uri) (bad : String) (t : Tam
         | .raised => some s!"S={msgStr m} I={invStr i} E=raised O=-"
         | .msg em => some s!"S={msgStr m} I={invStr i} E={msgStr em} O={callStr (onError tbox tcodec rA e.uri em)}"
   else if dir = "yield" then
-    let s := originate tbox tcodec rA u (some "a") kw 0
+    -- `swap:<u2>`: the observed call goes to u2; its RESULT gets the payload of a RESULT of an earlier call to `u`
+    -- (when both are sealed)
+    let target : Uri := match t with | .swap u2 => u2 | _ => u
+    let s := originate tbox tcodec rA target (some "a") kw 0
     match s with
     | .raised => some s!"S=raised I=- Y=- O=-"
     | .msg m =>
-      let i := onInvocation tbox tcodec rB u m
+      let i := onInvocation tbox tcodec rB target m
       match i with
       | .encError _ => some s!"S={msgStr m} I={invStr i} Y=- O=-"
       | .invoked _ _ enc =>
-        let y := yieldMsg tbox tcodec rB enc u (argTok bad) none 1
-        let (env, y') := applyTamper t u y
-        some s!"S={msgStr m} I={invStr i} Y={msgStr y} O={callStr (onResult tbox tcodec rA env y')}"
+        let y := yieldMsg tbox tcodec rB enc target (argTok bad) none 1
+        let y' : M := match t with
+          | .none => y
+          | .garble => if y.payload.isSome then { y with payload := some (.garbage 0) } else y
+          | .swap _ =>
+            match originate tbox tcodec rA u (some "a") kw 0 with
+            | .raised => y
+            | .msg m1 =>
+              match onInvocation tbox tcodec rB u m1 with
+              | .encError _ => y
+              | .invoked _ _ enc1 =>
+                let y1 := yieldMsg tbox tcodec rB enc1 u (some "a") none 1
+                if y1.payload.isSome ∧ y.payload.isSome then { y with payload := y1.payload } else y
+        some s!"S={msgStr m} I={invStr i} Y={msgStr y} O={callStr (onResult tbox tcodec rA target y')}"
   else if dir = "error" then
     let s := originate tbox tcodec rA u (some "a") kw 0
     match s with
